@@ -382,6 +382,22 @@ func checkC09(c *Check, p *Program) {
 			facts := factsWithParents(in.Block())
 			c.Decide(anyFact(facts, func(f Cmp) bool { return cmpIsFieldEq(f, stResChan, a.channel) }), "C09.H3", FuncName(fn)+" feeds the heartbeat behind channel match", p.InstrPos(in), "dominated by res.Channel == conn.channel", "a connection-state response for a foreign channel reaches the heartbeat")
 			c.Decide(isLoadOf(val, stResStatus), "C09.H3", FuncName(fn)+" feeds res.Status", p.InstrPos(in), "the response's status", "the value handed to the heartbeat is "+describe(val)+", not the response's status")
+			// a response nobody waits for is dropped after one resend interval at the latest: held longer it answers the
+			// next heartbeat, whose request then is never repeated and whose verdict is about an earlier moment
+			if sel, isSel := in.(*ssa.Select); isSel {
+				expires := false
+				for _, st := range sel.States {
+					if st.Dir != types.RecvOnly {
+						continue
+					}
+					if tm := timerOf(st.Chan); tm != nil && tm.Kind == "after" && tm.Field == a.resend {
+						expires = true
+					}
+				}
+				c.Decide(expires && sel.Blocking, "C09.H3", FuncName(fn)+" relayed response expires after one resend interval", p.InstrPos(in), "select {result <- status, <-time.After(config.ResendInterval), <-done}", "the relayed connection-state response is kept for another time than one resend interval: a surplus response of a gateway that then dies is taken as the answer to the next heartbeat")
+			} else {
+				c.Fail("C09.H3", FuncName(fn)+" relayed response expires after one resend interval", p.InstrPos(in), "the response is handed over by a plain blocking send")
+			}
 		})
 	}
 	c.Floor("C09.H3", "sends on the heartbeat result channel", nFeed, 1)
